@@ -55,7 +55,7 @@ CHECKS = {
         text="The wire form is rendered by the harness from symbolic parts (method, origin-form path incl. ';', header names/values, "
         "status digits, reason, body over the full byte alphabet incl. CR LF CR LF and NUL) and the parsed tuple is proved equal to the "
         "parts for every value within the bounds; every first line of <=7/9 symbolic bytes that is not three whitespace-separated "
-        "parts is proved to raise ValueError. Percent-decoding runs natively on 8 enumerated concrete queries (the solver proves only "
+        "parts is proved to raise ValueError. Percent-decoding runs natively on 10 enumerated concrete queries (incl. non-ASCII decoded bytes; expected values from an independent decoder in the harness) (the solver proves only "
         "that exactly the part after '?' reaches parse_qsl).",
         note="Trusted: z3; symx; origin-form model of urlsplit/urlparse (validated against urllib each run); decimal int(str) model; "
         "parse_qsl native on concrete input.",
